@@ -162,6 +162,461 @@ func c08IfElse(s *source, fd *ast.FuncDecl) []string {
 	return out
 }
 
+// ---------------------------------------------------------------------------------------------------------------
+// round 4: decision-making conditions translated to Lean terms (semantic tie).
+//
+// c08Sem translates a Go boolean expression over identifiers, selectors (a.b -> a_b), len(x) (-> len_x), constant
+// indexes x[0] (-> x_at_0), integer literals, known constants, ! && || and comparisons.  Every variable must be declared
+// by the caller with its sort: "bool", "int" (comparisons are decided on Lean's Int) or "ord" (operands of an ordered
+// type that the Tie instantiates, e.g. float64 -> the model's numbers: `a < b` becomes `(lt a b)` with the operators
+// as parameters).  Anything else fails loudly (extraction error + marker definition).
+type c08Sem struct {
+	s      *source
+	sorts  map[string]string // lean variable name -> bool | int | ord
+	consts map[string]string // Go identifier -> Lean Int literal
+	used   map[string]bool
+}
+
+type c08SemErr struct{ msg string }
+
+func (c *c08Sem) fail(format string, a ...any) { panic(c08SemErr{fmt.Sprintf(format, a...)}) }
+
+func (c *c08Sem) varName(e ast.Expr) (string, bool) {
+	switch x := e.(type) {
+	case *ast.Ident:
+		return x.Name, true
+	case *ast.SelectorExpr:
+		b, ok := c.varName(x.X)
+		if !ok {
+			return "", false
+		}
+		return b + "_" + x.Sel.Name, true
+	case *ast.ParenExpr:
+		return c.varName(x.X)
+	case *ast.IndexExpr:
+		b, ok := c.varName(x.X)
+		lit, isLit := x.Index.(*ast.BasicLit)
+		if !ok || !isLit || lit.Kind != token.INT {
+			return "", false
+		}
+		return b + "_at_" + lit.Value, true
+	case *ast.CallExpr:
+		if id, ok := x.Fun.(*ast.Ident); ok && id.Name == "len" && len(x.Args) == 1 {
+			b, ok := c.varName(x.Args[0])
+			if !ok {
+				return "", false
+			}
+			return "len_" + b, true
+		}
+		// a method call without arguments reads like a field: refValue.Len() -> refValue_Len
+		if sel, ok := x.Fun.(*ast.SelectorExpr); ok && len(x.Args) == 0 {
+			b, ok := c.varName(sel.X)
+			if !ok {
+				return "", false
+			}
+			return b + "_" + sel.Sel.Name, true
+		}
+	}
+	return "", false
+}
+
+// term returns the Lean term and its sort
+func (c *c08Sem) term(e ast.Expr) (string, string) {
+	switch x := e.(type) {
+	case *ast.ParenExpr:
+		return c.term(x.X)
+	case *ast.BasicLit:
+		if x.Kind == token.INT {
+			return "(" + x.Value + " : Int)", "int"
+		}
+		if x.Kind == token.CHAR {
+			if v, ok := c.s.eval("", x); ok {
+				return "(" + v.ExactString() + " : Int)", "int"
+			}
+		}
+		c.fail("unsupported literal %s", x.Value)
+	case *ast.UnaryExpr:
+		if x.Op == token.NOT {
+			t, so := c.term(x.X)
+			if so != "bool" {
+				c.fail("! on a non-boolean")
+			}
+			return "(!" + t + ")", "bool"
+		}
+		c.fail("unsupported unary %s", x.Op)
+	case *ast.BinaryExpr:
+		switch x.Op {
+		case token.LAND, token.LOR:
+			a, sa := c.term(x.X)
+			b, sb := c.term(x.Y)
+			if sa != "bool" || sb != "bool" {
+				c.fail("%s on a non-boolean", x.Op)
+			}
+			op := "&&"
+			if x.Op == token.LOR {
+				op = "||"
+			}
+			return "(" + a + " " + op + " " + b + ")", "bool"
+		case token.LSS, token.LEQ, token.GTR, token.GEQ, token.EQL, token.NEQ:
+			a, sa := c.term(x.X)
+			b, sb := c.term(x.Y)
+			if sa != sb {
+				c.fail("comparison of %s with %s in %s", sa, sb, c.s.src(x))
+			}
+			switch sa {
+			case "int":
+				op := map[token.Token]string{token.LSS: "<", token.LEQ: "≤", token.GTR: ">", token.GEQ: "≥", token.EQL: "=", token.NEQ: "≠"}[x.Op]
+				return "(decide (" + a + " " + op + " " + b + "))", "bool"
+			case "ord":
+				op := map[token.Token]string{token.LSS: "lt", token.LEQ: "le", token.GTR: "gt", token.GEQ: "ge", token.EQL: "eq", token.NEQ: "ne"}[x.Op]
+				c.used[op] = true
+				return "(" + op + " " + a + " " + b + ")", "bool"
+			case "bool":
+				if x.Op == token.EQL {
+					return "(" + a + " == " + b + ")", "bool"
+				}
+				if x.Op == token.NEQ {
+					return "(" + a + " != " + b + ")", "bool"
+				}
+			}
+			c.fail("unsupported comparison %s", c.s.src(x))
+		}
+		c.fail("unsupported binary %s", x.Op)
+	}
+	if id, ok := e.(*ast.Ident); ok {
+		if id.Name == "true" || id.Name == "false" {
+			return id.Name, "bool"
+		}
+		if v, ok := c.consts[id.Name]; ok {
+			return "(" + v + " : Int)", "int"
+		}
+	}
+	n, ok := c.varName(e)
+	if !ok {
+		c.fail("unsupported expression %s", c.s.src(e))
+	}
+	so, ok := c.sorts[n]
+	if !ok {
+		c.fail("undeclared variable %s in %s", n, c.s.src(e))
+	}
+	c.used[n] = true
+	return n, so
+}
+
+// c08CondDef emits `def <lean> <binders> : Bool := <translated cond>`; the binders are given by the caller (so that
+// the statement of the Tie theorem is stable) and must bind every variable the translation uses.
+func c08CondDef(e *emitter, s *source, lean, doc, binders string, sorts map[string]string, consts map[string]string, cond ast.Expr) {
+	if cond == nil {
+		e.errors = append(e.errors, "condition for "+lean+" not found ("+doc+")")
+		e.printf("/-- MISSING: %s -/\ndef %s : Unit := ()\n\n", doc, lean)
+		return
+	}
+	c := &c08Sem{s: s, sorts: sorts, consts: consts, used: map[string]bool{}}
+	var term string
+	func() {
+		defer func() {
+			if p := recover(); p != nil {
+				if te, ok := p.(c08SemErr); ok {
+					e.errors = append(e.errors, lean+": "+te.msg)
+					term = ""
+					return
+				}
+				panic(p)
+			}
+		}()
+		t, so := c.term(cond)
+		if so != "bool" {
+			c.fail("not a boolean expression")
+		}
+		term = t
+	}()
+	if term == "" {
+		e.printf("/-- TRANSLATION FAILED: %s (`%s`) -/\ndef %s : Unit := ()\n\n", doc, s.src(cond), lean)
+		return
+	}
+	e.printf("/-- %s — translated from `%s` -/\ndef %s %s : Bool :=\n  %s\n\n", doc, strings.Join(strings.Fields(s.src(cond)), " "), lean, binders, term)
+}
+
+// c08Ifs lists every if statement of a function in source order.
+func c08Ifs(fd *ast.FuncDecl) []*ast.IfStmt {
+	var out []*ast.IfStmt
+	ast.Inspect(fd.Body, func(n ast.Node) bool {
+		if is, ok := n.(*ast.IfStmt); ok {
+			out = append(out, is)
+		}
+		return true
+	})
+	return out
+}
+
+// c08IfWith returns the n-th (0-based) if statement whose condition text contains every given substring.
+func c08IfWith(s *source, fd *ast.FuncDecl, n int, subs ...string) *ast.IfStmt {
+	if fd == nil {
+		return nil
+	}
+	for _, is := range c08Ifs(fd) {
+		txt := s.src(is.Cond)
+		ok := true
+		for _, sub := range subs {
+			if !strings.Contains(txt, sub) {
+				ok = false
+			}
+		}
+		if ok {
+			if n == 0 {
+				return is
+			}
+			n--
+		}
+	}
+	return nil
+}
+
+func c08Cond(is *ast.IfStmt) ast.Expr {
+	if is == nil {
+		return nil
+	}
+	return is.Cond
+}
+
+// c08ConstIndexes lists the constant indexes `name[<int>]` used inside a block.
+func c08ConstIndexes(s *source, b ast.Node, name string) []string {
+	out := []string{}
+	if b == nil {
+		return out
+	}
+	ast.Inspect(b, func(n ast.Node) bool {
+		if ix, ok := n.(*ast.IndexExpr); ok {
+			if id, ok := ix.X.(*ast.Ident); ok && id.Name == name {
+				if lit, ok := ix.Index.(*ast.BasicLit); ok && lit.Kind == token.INT {
+					out = append(out, lit.Value)
+				} else {
+					out = append(out, "-999999999") // a non-constant index: not in range for any length
+				}
+			}
+		}
+		return true
+	})
+	return out
+}
+
+func (e *emitter) c08IntList(lean, doc string, items []string) {
+	e.printf("/-- %s -/\ndef %s : List Int := [%s]\n\n", doc, lean, strings.Join(items, ", "))
+}
+
+func c08BlockStmts(s *source, b *ast.BlockStmt) []string {
+	out := []string{}
+	if b == nil {
+		return out
+	}
+	for _, st := range b.List {
+		out = append(out, strings.Join(strings.Fields(s.src(st)), " "))
+	}
+	return out
+}
+
+func c08Semantic(s *source, e *emitter) {
+	const fo = "core/mapping/fieldoptions.go"
+	const ut = "core/mapping/utils.go"
+	const um = "core/mapping/unmarshaler.go"
+	notSym := map[string]string{}
+	if v, ok := s.constValue(fo, "notSymbol"); ok {
+		notSym["notSymbol"] = v.ExactString()
+	}
+	// --- round 4: the front ends and glue that forward to the unmarshaller
+	const va = "core/mapping/valuer.go"
+	e.shapeDef(s, va, "simpleValuer.Value", "simpleValuerValueShape")
+	e.shapeDef(s, va, "simpleValuer.Parent", "simpleValuerParentShape")
+	e.shapeDef(s, va, "recursiveValuer.Value", "recursiveValuerValueShape")
+	e.shapeDef(s, va, "recursiveValuer.Parent", "recursiveValuerParentShape")
+	e.shapeDef(s, va, "mapValuer.Value", "mapValuerValueShape")
+	e.shapeDef(s, um, "createValuer", "createValuerShape")
+	calls := func(rel, fn, lean string) {
+		fd := s.findFunc(rel, fn)
+		var out []string
+		if fd == nil {
+			e.errors = append(e.errors, "function "+fn+" not found in "+rel)
+			out = []string{"MISSING"}
+		} else {
+			// every call with its arguments, and every return statement, in source order
+			ast.Inspect(fd.Body, func(n ast.Node) bool {
+				switch x := n.(type) {
+				case *ast.CallExpr:
+					out = append(out, "call "+strings.Join(strings.Fields(s.src(x)), " "))
+				case *ast.ReturnStmt:
+					out = append(out, strings.Join(strings.Fields(s.src(x)), " "))
+					return false
+				}
+				return true
+			})
+		}
+		e.stringList(lean, "calls (with arguments) and returns of `"+fn+"` in "+rel, out)
+	}
+	calls("core/mapping/yamlunmarshaler.go", "UnmarshalYamlBytes", "unmarshalYamlBytesCalls")
+	calls("core/mapping/tomlunmarshaler.go", "UnmarshalTomlBytes", "unmarshalTomlBytesCalls")
+	calls("core/mapping/yamlunmarshaler.go", "UnmarshalYamlReader", "unmarshalYamlReaderCalls")
+	calls("core/mapping/tomlunmarshaler.go", "UnmarshalTomlReader", "unmarshalTomlReaderCalls")
+	calls("core/mapping/jsonunmarshaler.go", "UnmarshalJsonBytes", "unmarshalJsonBytesCalls")
+	calls("core/mapping/jsonunmarshaler.go", "UnmarshalJsonMap", "unmarshalJsonMapCalls")
+	calls("core/mapping/jsonunmarshaler.go", "getJsonUnmarshaler", "getJsonUnmarshalerCalls")
+	calls("core/mapping/jsonunmarshaler.go", "unmarshalJsonBytes", "unmarshalJsonBytesInnerCalls")
+	const cf = "core/conf/config.go"
+	calls(cf, "LoadFromJsonBytes", "confLoadFromJsonBytesCalls")
+	calls(cf, "LoadFromYamlBytes", "confLoadFromYamlBytesCalls")
+	calls(cf, "LoadFromTomlBytes", "confLoadFromTomlBytesCalls")
+	calls(cf, "toLowerCase", "confToLowerCaseCalls")
+	e.shapeDef(s, cf, "Load", "confLoadShape")
+	e.shapeDef(s, cf, "toLowerCaseKeyMap", "confLowerKeyMapShape")
+	// the loaders table of core/conf: extension -> loader
+	{
+		var out []string
+		if f := s.file(cf); f != nil {
+			ast.Inspect(f, func(n ast.Node) bool {
+				vs, ok := n.(*ast.ValueSpec)
+				if !ok {
+					return true
+				}
+				for i, nm := range vs.Names {
+					if nm.Name == "loaders" && i < len(vs.Values) {
+						if cl, ok := vs.Values[i].(*ast.CompositeLit); ok {
+							for _, el := range cl.Elts {
+								out = append(out, strings.Join(strings.Fields(s.src(el)), " "))
+							}
+						}
+					}
+				}
+				return true
+			})
+		}
+		if len(out) == 0 {
+			e.errors = append(e.errors, "loaders table not found in "+cf)
+		}
+		e.stringList("confLoaders", "the loaders table of core/conf", out)
+	}
+	calls("rest/httpx/requests.go", "ParseHeaders", "httpParseHeadersCalls")
+	calls("rest/httpx/requests.go", "ParseForm", "httpParseFormCalls")
+	calls("rest/httpx/requests.go", "ParsePath", "httpParsePathCalls")
+	calls("rest/httpx/requests.go", "ParseJsonBody", "httpParseJsonBodyCalls")
+	calls("rest/httpx/requests.go", "withJsonBody", "httpWithJsonBodyCalls")
+	// the cache of structValueRequired: its key (tag key + type since a8b007f) and its accesses
+	if fd := s.findFunc(ut, "structValueRequired"); fd != nil {
+		var ds []string
+		ast.Inspect(fd.Body, func(n ast.Node) bool {
+			if x, ok := n.(*ast.AssignStmt); ok {
+				txt := strings.Join(strings.Fields(s.src(x)), " ")
+				if len(x.Lhs) >= 1 && (s.src(x.Lhs[0]) == "cacheKey" || strings.Contains(txt, "structRequiredCache[") || strings.Contains(txt, "implicitValueRequiredStruct(")) {
+					if i := strings.Index(txt, "{ required"); i >= 0 {
+						txt = txt[:i] + "{…}"
+					}
+					ds = append(ds, txt)
+				}
+			}
+			return true
+		})
+		e.stringList("structRequiredCacheUse", "cache key and cache accesses of structValueRequired", ds)
+	} else {
+		e.errors = append(e.errors, "function structValueRequired not found")
+		e.stringList("structRequiredCacheUse", "MISSING", []string{"MISSING"})
+	}
+	// --- encoding.ParseHeaders: scalar or slice
+	ph := s.findFunc("rest/internal/encoding/parser.go", "ParseHeaders")
+	var phIf *ast.IfStmt
+	if ph != nil {
+		phIf = c08IfWith(s, ph, 0, "len(v)")
+	}
+	c08CondDef(e, s, "parseHeadersScalar", "ParseHeaders: the header value is handed over as a scalar", "(len_v : Int)",
+		map[string]string{"len_v": "int"}, nil, c08Cond(phIf))
+	if phIf != nil {
+		e.c08IntList("parseHeadersThenIdx", "constant indexes into v in the then-branch", c08ConstIndexes(s, phIf.Body, "v"))
+		var eb ast.Node
+		if phIf.Else != nil {
+			eb = phIf.Else
+		}
+		e.c08IntList("parseHeadersElseIdx", "constant indexes into v in the else-branch", c08ConstIndexes(s, eb, "v"))
+		els, _ := phIf.Else.(*ast.BlockStmt)
+		e.stringList("parseHeadersThen", "then-branch of the decision in ParseHeaders", c08BlockStmts(s, phIf.Body))
+		e.stringList("parseHeadersElse", "else-branch of the decision in ParseHeaders", c08BlockStmts(s, els))
+	} else {
+		e.c08IntList("parseHeadersThenIdx", "MISSING", []string{"-999999999"})
+		e.c08IntList("parseHeadersElseIdx", "MISSING", []string{"-999999999"})
+		e.stringList("parseHeadersThen", "MISSING", []string{"MISSING"})
+		e.stringList("parseHeadersElse", "MISSING", []string{"MISSING"})
+	}
+	// --- validateNumberRange: the two one-sided tests
+	vr := s.findFunc(ut, "validateNumberRange")
+	ordB := "{X B : Type} (lt le gt ge : X → B → Bool)"
+	c08CondDef(e, s, "rangeLeftCond", "validateNumberRange: the value is left of the range", ordB+" (nr_leftInclude : Bool) (fv : X) (nr_left : B)",
+		map[string]string{"nr_leftInclude": "bool", "fv": "ord", "nr_left": "ord"}, nil, c08Cond(c08IfWith(s, vr, 0, "nr.left")))
+	c08CondDef(e, s, "rangeRightCond", "validateNumberRange: the value is right of the range", ordB+" (nr_rightInclude : Bool) (fv : X) (nr_right : B)",
+		map[string]string{"nr_rightInclude": "bool", "fv": "ord", "nr_right": "ord"}, nil, c08Cond(c08IfWith(s, vr, 0, "nr.right")))
+	// --- parseNumberRange: wrong order of the bounds, equal bounds need both ends closed
+	pr := s.findFunc(ut, "parseNumberRange")
+	c08CondDef(e, s, "rangeBoundsSwapped", "parseNumberRange: the bounds are in the wrong order", "{B : Type} (gt : B → B → Bool) (left right : B)",
+		map[string]string{"left": "ord", "right": "ord"}, nil, c08Cond(c08IfWith(s, pr, 0, "left > right")))
+	c08CondDef(e, s, "rangeBoundsEqual", "parseNumberRange: the bounds are equal", "{B : Type} (eq : B → B → Bool) (left right : B)",
+		map[string]string{"left": "ord", "right": "ord"}, nil, c08Cond(c08IfWith(s, pr, 0, "left == right")))
+	c08CondDef(e, s, "rangeEqualNeedsClosed", "parseNumberRange: equal bounds with an open end are refused", "(leftInclude rightInclude : Bool)",
+		map[string]string{"leftInclude": "bool", "rightInclude": "bool"}, nil, c08Cond(c08IfWith(s, pr, 0, "leftInclude", "rightInclude")))
+	c08CondDef(e, s, "rangeBothOmitted", "parseNumberRange: both bounds omitted", "(len_fields_at_0 len_fields_at_1 : Int)",
+		map[string]string{"len_fields_at_0": "int", "len_fields_at_1": "int"}, nil, c08Cond(c08IfWith(s, pr, 0, "len(fields[0]) == 0")))
+	c08CondDef(e, s, "rangeLeftGiven", "parseNumberRange: the left bound is given", "(len_fields_at_0 : Int)",
+		map[string]string{"len_fields_at_0": "int"}, nil, c08Cond(c08IfWith(s, pr, 0, "len(fields[0]) > 0")))
+	c08CondDef(e, s, "rangeRightGiven", "parseNumberRange: the right bound is given", "(len_fields_at_1 : Int)",
+		map[string]string{"len_fields_at_1": "int"}, nil, c08Cond(c08IfWith(s, pr, 0, "len(fields[1]) > 0")))
+	c08CondDef(e, s, "rangeFieldCount", "parseNumberRange: not exactly two bounds", "(len_fields : Int)",
+		map[string]string{"len_fields": "int"}, nil, c08Cond(c08IfWith(s, pr, 0, "len(fields) != ")))
+	// --- toOptionsWithContext: the dependency tests and the copy test
+	to := s.findFunc(fo, "fieldOptions.toOptionsWithContext")
+	c08CondDef(e, s, "depNotViolated", "toOptionsWithContext: optional=!dep is violated", "(baseOn selfOn : Bool)",
+		map[string]string{"baseOn": "bool", "selfOn": "bool"}, nil, c08Cond(c08IfWith(s, to, 0, "baseOn", "selfOn")))
+	c08CondDef(e, s, "depViolated", "toOptionsWithContext: optional=dep is violated", "(baseOn selfOn : Bool)",
+		map[string]string{"baseOn": "bool", "selfOn": "bool"}, nil, c08Cond(c08IfWith(s, to, 1, "baseOn", "selfOn")))
+	c08CondDef(e, s, "depIsNot", "toOptionsWithContext: the dependency starts with the not symbol", "(dep_at_0 : Int)",
+		map[string]string{"dep_at_0": "int"}, notSym, c08Cond(c08IfWith(s, to, 0, "dep[0]")))
+	c08CondDef(e, s, "optionalUnchanged", "toOptionsWithContext: the declared option set is returned as it is", "(o_fieldOptionsWithContext_Optional optional : Bool)",
+		map[string]string{"o_fieldOptionsWithContext_Optional": "bool", "optional": "bool"}, nil, c08Cond(c08IfWith(s, to, 0, "== optional")))
+	// --- implicitValueRequiredStruct
+	ir := s.findFunc(ut, "implicitValueRequiredStruct")
+	c08CondDef(e, s, "requiredField", "implicitValueRequiredStruct: neither optional nor defaulted", "(opts_Optional : Bool) (len_opts_Default : Int)",
+		map[string]string{"opts_Optional": "bool", "len_opts_Default": "int"}, nil, c08Cond(c08IfWith(s, ir, 0, "opts.Optional")))
+	c08CondDef(e, s, "requiredNotDep", "implicitValueRequiredStruct: optional=!dep", "(len_opts_OptionalDep opts_OptionalDep_at_0 : Int)",
+		map[string]string{"len_opts_OptionalDep": "int", "opts_OptionalDep_at_0": "int"}, notSym, c08Cond(c08IfWith(s, ir, 0, "opts.OptionalDep[0]")))
+	// --- GetFormValues: empty values are skipped, a name is kept when a value is left
+	gf := s.findFunc("rest/httpx/util.go", "GetFormValues")
+	c08CondDef(e, s, "formSkipValue", "GetFormValues: the value is skipped", "(len_v : Int)",
+		map[string]string{"len_v": "int"}, nil, c08Cond(c08IfWith(s, gf, 0, "len(v)")))
+	c08CondDef(e, s, "formKeepName", "GetFormValues: the name is handed over", "(len_filtered : Int)",
+		map[string]string{"len_filtered": "int"}, nil, c08Cond(c08IfWith(s, gf, 0, "len(filtered)")))
+	// --- fillSlice: `[]` gives an empty slice
+	fsl := s.findFunc(um, "Unmarshaler.fillSlice")
+	c08CondDef(e, s, "fillSliceEmpty", "fillSlice: an empty input slice", "(refValue_Len : Int)",
+		map[string]string{"refValue_Len": "int"}, nil, c08Cond(c08IfWith(s, fsl, 0, "refValue.Len()")))
+	// --- processNamedField: the WithFromArray block
+	pn := s.findFunc(um, "Unmarshaler.processNamedField")
+	c08CondDef(e, s, "fromArrayBlock", "processNamedField: the WithFromArray block is entered", "(u_opts_fromArray mapValueIsNil : Bool)",
+		map[string]string{"u_opts_fromArray": "bool", "mapValueIsNil": "bool"}, nil, c08NilCmp(c08Cond(c08IfWith(s, pn, 0, "fromArray"))))
+}
+
+// c08NilCmp rewrites `x != nil` / `x == nil` into `!xIsNil` / `xIsNil` so that the condition is a boolean term.
+func c08NilCmp(e ast.Expr) ast.Expr {
+	switch x := e.(type) {
+	case *ast.BinaryExpr:
+		if id, ok := x.Y.(*ast.Ident); ok && id.Name == "nil" && (x.Op == token.NEQ || x.Op == token.EQL) {
+			if v, ok := x.X.(*ast.Ident); ok {
+				isNil := ast.NewIdent(v.Name + "IsNil")
+				if x.Op == token.EQL {
+					return isNil
+				}
+				return &ast.UnaryExpr{Op: token.NOT, X: isNil}
+			}
+		}
+		return &ast.BinaryExpr{X: c08NilCmp(x.X), Op: x.Op, Y: c08NilCmp(x.Y)}
+	case *ast.ParenExpr:
+		return &ast.ParenExpr{X: c08NilCmp(x.X)}
+	}
+	return e
+}
+
 func init() {
 	register("C08", func(s *source, e *emitter) {
 		const fo = "core/mapping/fieldoptions.go"
@@ -346,5 +801,6 @@ func init() {
 		} else {
 			e.stringList("fromArrayGuard", "MISSING", []string{"MISSING"})
 		}
+		c08Semantic(s, e)
 	})
 }
